@@ -19,6 +19,9 @@ HANDLER = "block_handler::BlockHandler::<Endpoint>::"
 
 
 def check(env, rep, tier):
+    include(rep, env, tier, "c09", ("C09.2",), "C11.5",
+            "'a block far beyond the buffered length is rejected': the offset handed to the bounded splice is the true byte offset "
+            "num x size computed at full width (a narrowed product wraps a far block back into the accepted window)")
     configs = ["default"] if tier == "quick" else ["default", "udp"]
     rep.configs = configs
     for cfg in configs:
